@@ -96,6 +96,8 @@ fn is_div_by_zero<T>(r: &Result<T>) -> bool {
 // C09  +  -  *   on exact operands
 // ====================================================================================
 //@ props C09 C07
+//@ role twin
+//@ twin_of add from_ratio
 pub fn h_add_exact(s: &mut In) -> HR {
     let x = draw_exact(s);
     let y = draw_exact(s);
@@ -110,6 +112,8 @@ pub fn h_add_exact(s: &mut In) -> HR {
     Ok(())
 }
 //@ props C09 C07
+//@ role twin
+//@ twin_of sub from_ratio
 pub fn h_sub_exact(s: &mut In) -> HR {
     let x = draw_exact(s);
     let y = draw_exact(s);
@@ -121,6 +125,8 @@ pub fn h_sub_exact(s: &mut In) -> HR {
     Ok(())
 }
 //@ props C09 C07
+//@ role twin
+//@ twin_of mul from_ratio
 pub fn h_mul_exact(s: &mut In) -> HR {
     let x = draw_exact(s);
     let y = draw_exact(s);
@@ -132,6 +138,8 @@ pub fn h_mul_exact(s: &mut In) -> HR {
     Ok(())
 }
 //@ props C09 C08 C07
+//@ role twin
+//@ twin_of div from_ratio check_division_by_zero
 pub fn h_div_exact(s: &mut In) -> HR {
     let x = draw_exact(s);
     let y = draw_exact(s);
@@ -155,6 +163,8 @@ pub fn h_div_exact(s: &mut In) -> HR {
     Ok(())
 }
 //@ props C09 C07
+//@ role twin
+//@ twin_of abs from_ratio
 pub fn h_abs_exact(s: &mut In) -> HR {
     let x = draw_exact(s);
     vassume!(wf(&x));
@@ -170,43 +180,8 @@ pub fn h_abs_exact(s: &mut In) -> HR {
 // ====================================================================================
 // C09  contagion: an inexact operand => binary32 result of the IEEE operation on the converted operands
 // ====================================================================================
-fn draw_with_inexact(s: &mut In) -> (N, N) {
-    let x = draw_number(s);
-    let y = draw_number(s);
-    (x, y)
-}
 //@ props C09
-pub fn h_add_inexact(s: &mut In) -> HR {
-    let (x, y) = draw_with_inexact(s);
-    vassume!(wf(&x) && wf(&y) && (!is_exact(&x) || !is_exact(&y)));
-    vcheck!("add: inexact operand => IEEE binary32 sum", real_is(&(x + y), conv(&x) + conv(&y)));
-    Ok(())
-}
-//@ props C09
-pub fn h_sub_inexact(s: &mut In) -> HR {
-    let (x, y) = draw_with_inexact(s);
-    vassume!(wf(&x) && wf(&y) && (!is_exact(&x) || !is_exact(&y)));
-    vcheck!("sub: inexact operand => IEEE binary32 difference", real_is(&(x - y), conv(&x) - conv(&y)));
-    Ok(())
-}
-//@ props C09
-pub fn h_mul_inexact(s: &mut In) -> HR {
-    let (x, y) = draw_with_inexact(s);
-    vassume!(wf(&x) && wf(&y) && (!is_exact(&x) || !is_exact(&y)));
-    vcheck!("mul: inexact operand => IEEE binary32 product", real_is(&(x * y), conv(&x) * conv(&y)));
-    Ok(())
-}
-//@ props C09
-pub fn h_div_inexact(s: &mut In) -> HR {
-    let (x, y) = draw_with_inexact(s);
-    vassume!(wf(&x) && wf(&y) && (!is_exact(&x) || !is_exact(&y)));
-    match x / y {
-        Ok(q) => vcheck!("div: inexact operand => IEEE binary32 quotient", real_is(&q, conv(&x) / conv(&y))),
-        Err(_) => vcheck!("div: inexact division never errors", false),
-    }
-    Ok(())
-}
-//@ props C09
+//@ role decisive
 pub fn h_unary_inexact(s: &mut In) -> HR {
     let f = s.f32();
     let x: N = Number::Real(f);
@@ -220,6 +195,8 @@ pub fn h_unary_inexact(s: &mut In) -> HR {
 // C09  floor / ceiling / floor-quotient / floor-remainder
 // ====================================================================================
 //@ props C09 C07
+//@ role twin
+//@ twin_of floor
 pub fn h_floor_exact(s: &mut In) -> HR {
     let x = draw_exact(s);
     vassume!(wf(&x));
@@ -233,6 +210,8 @@ pub fn h_floor_exact(s: &mut In) -> HR {
     Ok(())
 }
 //@ props C09 C07
+//@ role twin
+//@ twin_of ceiling
 pub fn h_ceiling_exact(s: &mut In) -> HR {
     let x = draw_exact(s);
     vassume!(wf(&x));
@@ -257,6 +236,8 @@ fn is_floor_of_quotient(q: i128, n: &N, d: &N) -> bool {
     }
 }
 //@ props C09 C08 C07
+//@ role twin
+//@ twin_of floor_quotient
 pub fn h_floor_quotient_exact(s: &mut In) -> HR {
     let n = draw_exact(s);
     let d = draw_exact(s);
@@ -277,6 +258,8 @@ pub fn h_floor_quotient_exact(s: &mut In) -> HR {
     Ok(())
 }
 //@ props C09 C07
+//@ role decisive
+//@ tier thorough
 pub fn h_floor_remainder_exact(s: &mut In) -> HR {
     let n = draw_exact(s);
     let d = draw_exact(s);
@@ -300,6 +283,8 @@ pub fn h_floor_remainder_exact(s: &mut In) -> HR {
 // C10  comparison
 // ====================================================================================
 //@ props C10 C07
+//@ role twin
+//@ twin_of eq partial_cmp
 pub fn h_cmp_exact(s: &mut In) -> HR {
     let x = draw_exact(s);
     let y = draw_exact(s);
@@ -313,20 +298,9 @@ pub fn h_cmp_exact(s: &mut In) -> HR {
     vcheck!(">= is the mathematical order on exact operands", (x >= y) == (l >= r));
     Ok(())
 }
-//@ props C10
-pub fn h_cmp_inexact(s: &mut In) -> HR {
-    let (x, y) = draw_with_inexact(s);
-    vassume!(wf(&x) && wf(&y) && (!is_exact(&x) || !is_exact(&y)));
-    let (l, r) = (conv(&x), conv(&y));
-    vcheck!("=  with an inexact operand is the binary32 comparison", (x == y) == (l == r));
-    vcheck!("<  with an inexact operand is the binary32 comparison", (x < y) == (l < r));
-    vcheck!(">  with an inexact operand is the binary32 comparison", (x > y) == (l > r));
-    vcheck!("<= with an inexact operand is the binary32 comparison", (x <= y) == (l <= r));
-    vcheck!(">= with an inexact operand is the binary32 comparison", (x >= y) == (l >= r));
-    vcheck!("partial_cmp is None exactly for NaN", x.partial_cmp(&y).is_none() == (l.is_nan() || r.is_nan()));
-    Ok(())
-}
 //@ props C10 C07
+//@ role twin
+//@ twin_of exact_eqv
 pub fn h_eqv(s: &mut In) -> HR {
     let x = draw_number(s);
     let y = draw_number(s);
@@ -338,19 +312,10 @@ pub fn h_eqv(s: &mut In) -> HR {
     } else {
         false
     };
+    // the case listed in known_findings.toml is checked by h_eqv_known_int_vs_ratio
+    vassume!(!mixed_int_ratio_equal(&x, &y));
     vcheck!("eqv? on numbers: same exactness and numerically equal", x.exact_eqv(&y) == expect);
     Ok(())
-}
-/// the binary step of max / min exactly as `first_of_order!` performs it
-fn maxmin_step(a: N, b: N, want_max: bool) -> N {
-    let oprand = upcast_oprands((a, b));
-    if want_max {
-        if a > b { oprand.lhs() } else { oprand.rhs() }
-    } else if a < b {
-        oprand.lhs()
-    } else {
-        oprand.rhs()
-    }
 }
 fn num_le(x: &N, y: &N) -> bool {
     // numeric x <= y, any mix, both wf, no NaN
@@ -367,24 +332,9 @@ fn num_eq(x: &N, y: &N) -> bool {
         conv(x) == conv(y)
     }
 }
-//@ props C10
-pub fn h_maxmin_step(s: &mut In) -> HR {
-    let x = draw_number(s);
-    let y = draw_number(s);
-    let want_max = s.bool();
-    vassume!(wf(&x) && wf(&y) && !conv(&x).is_nan() && !conv(&y).is_nan());
-    let m = maxmin_step(x, y, want_max);
-    vcheck!("max/min: inexact iff an argument is inexact", is_exact(&m) == (is_exact(&x) && is_exact(&y)));
-    vcheck!("max/min: result is wf", wf(&m));
-    vcheck!("max/min: result equals one of the arguments", num_eq(&m, &x) || num_eq(&m, &y));
-    if want_max {
-        vcheck!("max: result is >= both arguments", num_le(&x, &m) && num_le(&y, &m));
-    } else {
-        vcheck!("min: result is <= both arguments", num_le(&m, &x) && num_le(&m, &y));
-    }
-    Ok(())
-}
 //@ props C10 C09
+//@ role twin
+//@ twin_of upcast_oprands lhs rhs
 pub fn h_upcast(s: &mut In) -> HR {
     let x = draw_number(s);
     let y = draw_number(s);
@@ -400,5 +350,36 @@ pub fn h_upcast(s: &mut In) -> HR {
         vcheck!("upcast: an inexact operand converts both to binary32",
             real_is(&l, conv(&x)) && real_is(&r, conv(&y)));
     }
+    Ok(())
+}
+
+fn mixed_int_ratio_equal(x: &N, y: &N) -> bool {
+    let mixed = matches!((x, y), (Number::Integer(_), Number::Rational(..)) | (Number::Rational(..), Number::Integer(_)));
+    mixed && num(x) * den(y) == num(y) * den(x)
+}
+// KNOWN FINDING C10/eqv-integer-vs-ratio: expected to FAIL on the current tree (and to start passing
+// when the defect is repaired).  Everything outside this case is in the contract of exact_eqv.
+//@ props C10
+//@ role known
+//@ finding eqv-integer-vs-ratio
+pub fn h_eqv_known_int_vs_ratio(s: &mut In) -> HR {
+    let x = draw_exact(s);
+    let y = draw_exact(s);
+    vassume!(wf(&x) && wf(&y) && mixed_int_ratio_equal(&x, &y));
+    vcheck!("eqv? of an integer and a numerically equal ratio is true", x.exact_eqv(&y));
+    Ok(())
+}
+
+// ====================================================================================
+// R = f32: the facts the Verus prelude assumes about the abstract inexact type
+// ====================================================================================
+//@ props C09 C10
+//@ role decisive
+pub fn h_f32_conversions(s: &mut In) -> HR {
+    let a = s.i32();
+    let b = s.i32();
+    let wide: i64 = (a as i64) * (b as i64);
+    vcheck!("R::from(i32) at f32 is Some(x as f32)", <f32 as num_traits::NumCast>::from(a) == Some(a as f32));
+    vcheck!("R::from(i64) at f32 is Some(x as f32)", <f32 as num_traits::NumCast>::from(wide) == Some(wide as f32));
     Ok(())
 }
